@@ -14,11 +14,15 @@ import (
 // on the implementation; prints "VIOL <json>" lines), astro-dump, facts ...
 var modes = map[string]func(){}
 
+// the mode this process runs (generators scale their thorough domain by it)
+var curMode string
+
 func main() {
 	if len(os.Args) < 2 {
 		fatal("usage: harness <mode> [flags]")
 	}
 	mode := os.Args[1]
+	curMode = mode
 	if mode == "astro-dump" {
 		astroDump()
 		return
